@@ -218,6 +218,9 @@ func runC04(c *Ctx) {
 		{8, 24, "1234567", "", "never", "W8/prompt-W-1", nil},
 		{w: 8, h: 24, prompt: "> ", multi: "never", name: "W8/history-entry-longer-than-a-row", hist: []string{"aaaaaaaaaaaaaaaa", "ax\nyy"}},
 	}
+	// helper rows below the input that come and go: a temporary hint (re-read-init-file), a persistent one
+	// (keyboard macro being recorded), the numeric-argument hint - alone and together
+	scen = append(scen, c04Scenario{w: 20, h: 24, prompt: "> ", multi: "never", name: "W20/hints-coming-and-going"})
 	if !quick {
 		scen = append(scen,
 			c04Scenario{8, 6, "> ", "", "never", "W8xH6/scrolling", nil},
@@ -242,8 +245,12 @@ func runC04(c *Ctx) {
 			Act("backward-char", "\x02"), Act("forward-char", "\x06"), Act("beginning-of-line", "\x01"), Act("end-of-line", "\x05"),
 			Act("previous-screen-line", "\x18\x1dp"), Act("next-screen-line", "\x18\x1dn"), Act("clear-screen", "\x0c"), Act("transpose-chars", "\x14"),
 		}
+		if strings.HasPrefix(sc.name, "W20/hints") {
+			alpha = []Action{Act("a", "a"), Act(fmt.Sprintf("paste%d", W+1), narrow(W+1)), Act("backward-char", "\x02"), Act("backward-delete-char", "\x7f"),
+				Act("re-read-init-file", "\x18\x12"), Act("start-kbd-macro", "\x18("), Act("end-kbd-macro", "\x18)"), Act("digit-argument", "\x1b2")}
+		}
 		depth := 3
-		if si == 0 {
+		if si == 0 || strings.HasPrefix(sc.name, "W20/hints") {
 			depth = 4
 		}
 		if !quick {
